@@ -71,7 +71,7 @@ func runReplay(replayPath string) (bool, string) {
 	cmd.Env = append(os.Environ(), "GOFLAGS=-mod=mod", "GOPROXY=off", "GOVC_WITNESS="+replayPath)
 	out, _ := cmd.CombinedOutput()
 	s := string(out)
-	return strings.Contains(s, "REPRODUCED") || strings.Contains(s, "panic:"), s
+	return strings.Contains(s, "REPRODUCED") || strings.Contains(s, "panic:") || strings.Contains(s, "fatal error:"), s
 }
 
 func tryReplay(id, replayPath string, cfg PropConfig, r *OblResult) bool {
